@@ -130,7 +130,7 @@ func Run(c Case) error {
 			ts = append(ts, string(t))
 		}
 		err := fmt.Errorf("sequential Unmarshal differs from Unmarshal of the merged text at %s\ntype %s\ntexts %q\nmerged %s", d, sig, ts, cur)
-		if m.RawFallback && strings.Contains(d, ".Fb") {
+		if m.RawFallback && strings.Contains(d, "Fb") {
 			// F6: a jsontext.Value fallback appends the unknown members of every call
 			return rt.Known("value-fallback-accumulates-duplicates", err)
 		}
